@@ -52,15 +52,21 @@ func VerifC27Expired() {
 	vr.Reach("done")
 }
 
-//verif:harness prop=C27 reach=done,accepted,rejected unwind=8
+//verif:harness prop=C27 reach=done,accepted,rejected unwind=8 budget=280 thorough.budget=2400
 func VerifC27Absent() {
 	var proto config.ConsensusParams
-	proto.Payouts.MaxMarkAbsent = vr.Choice("maxabsent", 4)
+	proto.Payouts.MaxMarkAbsent = vr.Choice("maxabsent", vr.Param(3, 4))
 	// no challenge in force (ChallengeInterval = 0): the stake-proportional rule alone decides
 	p := verifMakeParent()
 	rnd := basics.Round(vr.U64("round"))
+	// ledger invariant maintained by the evaluator (LastProposed/LastHeartbeat are
+	// only ever set to the round being evaluated): nobody was seen in the future
+	vr.Assume(rnd < 1<<62) // round numbers are nowhere near wrapping
+	for i := range p.accts {
+		vr.Assume(p.accts[i].LastProposed <= rnd && p.accts[i].LastHeartbeat <= rnd)
+	}
 	ev := verifEvaluator(p, proto, rnd)
-	n := vr.Choice("n", 4)
+	n := vr.Choice("n", vr.Param(3, 4)) // quick: lists of <= 2, thorough: <= 3
 	list := verifAddrList("abs", n)
 	ev.block.ParticipationUpdates.AbsentParticipationAccounts = list
 
